@@ -244,6 +244,8 @@ macro_rules! mk_container {
 		match $cont {
 			"vec" => unreachable!(),
 			"bslice" => fin!(v.into_boxed_slice()),
+			// members reached through the crate's impls for `&mut T` (which own their referent)
+			"vecmut" => fin!(v.into_iter().map(|n| Box::leak(Box::new(n))).collect::<Vec<&'static mut Node>>()),
 			"arr" => match v.len() {
 				0 => fin!(<[Node; 0]>::try_from(v).ok().unwrap()),
 				1 => fin!(<[Node; 1]>::try_from(v).ok().unwrap()),
@@ -469,6 +471,19 @@ impl<'s> Builder<'s> {
 			Def::Coll { kind, uid, ctor, cont, members } => {
 				if cont == "vec" {
 					self.build_vec_coll(cid, &kind, uid, &ctor, &members, wrap);
+				} else if cont == "vecref" {
+					// members reached through the crate's impls for `&T`: not OwnedLockable, so only the checked
+					// constructors accept them
+					assert!(wrap.is_none(), "only Vec-based collections are wrapped / nested");
+					assert!(ctor == "try", "a container of shared references has no unchecked constructor");
+					let v: Vec<&'static Node> = self.nodes(&members).into_iter().map(|n| &*Box::leak(Box::new(n))).collect();
+					let r: Option<&'static dyn DynColl> = match kind.as_str() {
+						"boxed" => BoxedLockCollection::try_new(v).map(|x| leak(x) as &'static dyn DynColl),
+						"ref" => RefLockCollection::try_new(leak(v)).map(|x| leak(x) as &'static dyn DynColl),
+						"retry" => RetryingLockCollection::try_new(v).map(|x| leak(x) as &'static dyn DynColl),
+						k => panic!("kind {k} over shared references"),
+					};
+					self.finish_top(cid, r);
 				} else {
 					assert!(wrap.is_none(), "only Vec-based collections are wrapped / nested");
 					let nodes = self.nodes(&members);
